@@ -16,16 +16,34 @@ RULE = ('quotient ring: f random of degree 1..6 (monic / non-monic / reducible /
         'compared with the model only; the debug_assert of mul in both build profiles. '
         'non-trivial = degree >= 2 and a non-zero, non-constant operand')
 PROFILES = ('debug', 'release')
-PROVED = []
-NOT_PROVED = ['all clauses (first version: executable model + correspondence + oracles only)',
-              'norm(g(theta)) = Res(f, g) / lc(f)^deg g (oracle relation only)']
-ASSUMPTIONS = []
+PROVED = ['mul_with_mod_spec [P]: for f canonical of degree n, a, b canonical of degree < n: alg_mul returns r canonical of degree < n with Poly r = (Poly a * Poly b) %% Poly f over Qc (monic or not, reducible or not)',
+          'mul_with_mod_congruence [P]: pmul a b = padd (pmul q (map qz f)) r with the model\'s own list operations',
+          'alg_add_spec / alg_sub_spec [P]', 'alg_mul_comm / alg_mul_assoc / alg_mul_distr / alg_mul_one [P] as equalities of stored representatives',
+          'alg_pow_spec [P]: the supplied fuel suffices, result = representative of a^e (e >= 0, n >= 1)', 'alg_pow_add [P]: a^(s+t) = a^s * a^t',
+          'mult_table_mul_linear_l / _r [P] (bilinearity of MultTable::mul on n x n x n tables, both profiles), mult_table_mul_sum, mult_table_trace_sum (closed forms), trace_additive [P]',
+          'get_mult_table_shape [P]: a returned table is n x n x n',
+          'table_mul_agrees [P]: if get_mult_table returned, mul on integer coordinate vectors returns the coordinates of the product in Q[x]/(f)',
+          'to_z_basis_int_spec [P]: returned integer coordinates reproduce the element',
+          'norm_det [P]: on an n x n x n table norm a = det of the integer matrix sum_i a_i T_i (the multiplication matrix); to_integer does not truncate']
+NOT_PROVED = ['trace = \\tr of the multiplication matrix (only the closed-form sum is proved)',
+              'norm multiplicative (needs associativity of the structure constants + det_mulmx through LinAlg.determinant); oracle: norm = det of the multiplication matrix on every case',
+              'inv_spec: a * b = d = |norm a| (oracle on every case)', 'get_inv_diff = dual lattice of the trace form (oracle on every case)',
+              'to_z_basis with rational coordinates (oracle on every case)',
+              'norm(g(theta)) = Res(f, g) / lc(f)^deg g (oracle relation only)',
+              'totality of get_mult_table for lattices closed under multiplication (partial correctness only: statements carry get_mult_table b f = Done t)']
+ASSUMPTIONS = ['solve_linear_system / determinant / inv are used through the C18 theorems of area/linalg (solve_ok) merged into this branch',
+               'Algebraic.as_coefs with the zero polynomial is not run (the frozen model would build a list of usize::MAX entries; the code aborts with capacity overflow)']
 
 CLAIM = dict(
     technique='Coq proof about the Gallina model of Algebraic / MultTable / Order::get_mult_table + extracted-model-vs-implementation correspondence',
-    text='The model (coq/Model/Algebraic.v, MultTable.v, Order.v) reproduces the routines statement by statement including assertions, '
-         'unwraps and bounds checks; it is tied to /repo by running the extracted model and impl_svc on the same inputs.',
-    note='first version: no theorem yet; every clause is checked by an independent Fraction oracle on every explored input',
+    text='Theorems in coq/Props/C14.v hold for all f of degree n >= 1 (any leading coefficient, reducible or not), all canonical representatives and all '
+         'n x n x n tables (no size bound): mul_with_mod is the polynomial remainder of the product; ring laws and a^(s+t) = a^s a^t as equalities of stored '
+         'representatives; binary exponentiation terminates within the supplied fuel; MultTable::mul is bilinear, trace additive; a table returned by '
+         'get_mult_table makes mul agree with the product in Q[x]/(f) on coordinate vectors. The model (coq/Model/Algebraic.v, MultTable.v, Order.v) reproduces '
+         'the routines statement by statement including assertions, unwraps and bounds checks; it is tied to /repo by running the extracted model and impl_svc on '
+         'the same inputs.',
+    note='Not proved (checked by independent Fraction oracles on every explored input): norm/inv/get_inv_diff clauses, norm multiplicativity, norm(g(theta)) = Res(f,g)/lc^deg g. '
+         'Statements about tables are partial-correctness statements (they assume get_mult_table returned).',
     ref='DESIGN.md section 4, C14')
 
 def fr(l): return [F(x) for x in l]
@@ -207,7 +225,7 @@ def gen_f(rng, kind, deg, bound):
 
 def quotient_cases(rng, quick):
     out = []
-    nf = 70 if quick else 500
+    nf = 60 if quick else 500
     kinds = ['monic', 'nonmonic', 'reducible', 'nonprimitive', 'any']
     for t in range(nf):
         deg = 1 + t % 6
@@ -223,42 +241,42 @@ def quotient_cases(rng, quick):
         a, b, c = el(), el(), el()
         if rng.random() < 0.5: a = rand_elem(rng, n, bits, dbits, deg=n - 1)   # full degree: every reduction step runs
         out.append(Case('alg_mul', line('alg_mul', f, a, b), oracle=o_val(mulmod(a, b, f), 'a*b'), nontrivial=nt and len(a) > 1 and len(b) > 1,
-                        tag=tag, always_oracle=True))
-        out.append(Case('alg_mul', line('alg_mul', f, a, a), oracle=o_val(mulmod(a, a, f), 'a*a'), nontrivial=nt and len(a) > 1, tag=tag, always_oracle=True))
-        out.append(Case('alg_add', line('alg_add', f, a, b), oracle=o_val(padd(a, b), 'a+b'), nontrivial=nt, tag='alg:addsub', always_oracle=True))
-        out.append(Case('alg_sub', line('alg_sub', f, a, b), oracle=o_val(psub(a, b), 'a-b'), nontrivial=nt, tag='alg:addsub', always_oracle=True))
+                        tag=tag))
+        out.append(Case('alg_mul', line('alg_mul', f, a, a), oracle=o_val(mulmod(a, a, f), 'a*a'), nontrivial=nt and len(a) > 1, tag=tag))
+        out.append(Case('alg_add', line('alg_add', f, a, b), oracle=o_val(padd(a, b), 'a+b'), nontrivial=nt, tag='alg:addsub'))
+        out.append(Case('alg_sub', line('alg_sub', f, a, b), oracle=o_val(psub(a, b), 'a-b'), nontrivial=nt, tag='alg:addsub'))
         if rng.random() < 0.3:
             a2 = a[:-1] + [-a[-1]] if a else a       # cancelling leading terms
-            out.append(Case('alg_add', line('alg_add', f, a, a2), oracle=o_val(padd(a, a2), 'a+b'), nontrivial=nt, tag='alg:addsub', always_oracle=True))
-            out.append(Case('alg_sub', line('alg_sub', f, a, a), oracle=o_val([], 'a-a'), nontrivial=False, tag='alg:addsub', always_oracle=True))
+            out.append(Case('alg_add', line('alg_add', f, a, a2), oracle=o_val(padd(a, a2), 'a+b'), nontrivial=nt, tag='alg:addsub'))
+            out.append(Case('alg_sub', line('alg_sub', f, a, a), oracle=o_val([], 'a-a'), nontrivial=False, tag='alg:addsub'))
         # the extracted model computes with Coq's binary positives (quadratic gcd): keep the numbers below a few thousand bits
-        emax = {3: 16, 20: 6, 40: 4}[bits] if quick else {3: 24, 20: 9, 40: 6}[bits]
+        emax = {3: 12, 20: 5, 40: 3}[bits] if quick else {3: 24, 20: 9, 40: 6}[bits]
         if fbig: emax = min(emax, 5)
         e = rng.randint(0, emax)
         op = rng.choice(['alg_pow', 'alg_pow_u64'])
         out.append(Case(op, line(op, f, a, e), oracle=o_val(powmod_naive(a, e, f), 'a^%d' % e), nontrivial=nt and len(a) > 1 and e > 1,
-                        tag='alg:pow', always_oracle=True))
+                        tag='alg:pow'))
         s, u = rng.randint(0, emax // 2), rng.randint(0, emax // 2)
         out.append(Case('alg_law', line('alg_law', f, a, b, c, s, u), oracle=o_law(f, a, b, c, s, u), nontrivial=nt and len(a) > 1,
-                        tag='alg:laws', always_oracle=True))
-        out.append(Case('alg_new', line('alg_new', f), oracle=o_val(pmod([F(0), F(1)], f), 'theta'), nontrivial=False, tag='alg:new', always_oracle=True))
+                        tag='alg:laws'))
+        out.append(Case('alg_new', line('alg_new', f), oracle=o_val(pmod([F(0), F(1)], f), 'theta'), nontrivial=False, tag='alg:new'))
         e = rng.randint(0, n + 4 if fbig else 24)
         out.append(Case('alg_theta_pow', line('alg_theta_pow', f, e), oracle=o_val(powmod_naive([F(0), F(1)], e, f), 'theta^%d' % e),
-                        nontrivial=nt and e >= n, tag='alg:pow', always_oracle=True))
+                        nontrivial=nt and e >= n, tag='alg:pow'))
         out.append(Case('alg_as_coefs', line('alg_as_coefs', f, a), oracle=o_val(a + [F(0)] * (n - len(a)), 'as_coefs'), nontrivial=False,
-                        tag='alg:coefs', always_oracle=True))
+                        tag='alg:coefs'))
     # exponent shapes
     f = [1, 1, 0, 1]
     for e in [0, 1, 2, 3, 7, 8, 63, 64, 65, 255, 256]:
         a = [F(1, 2), F(-1), F(1)]
         big = e > 70
         aa = [F(0), F(1)] if big else a
-        out.append(Case('alg_pow', line('alg_pow', f, aa, e), oracle=o_val(powmod_naive(aa, e, f), 'a^%d' % e), tag='alg:pow', always_oracle=True))
-        out.append(Case('alg_pow_u64', line('alg_pow_u64', f, aa, e), oracle=o_val(powmod_naive(aa, e, f), 'a^%d' % e), tag='alg:pow', always_oracle=True))
+        out.append(Case('alg_pow', line('alg_pow', f, aa, e), oracle=o_val(powmod_naive(aa, e, f), 'a^%d' % e), tag='alg:pow'))
+        out.append(Case('alg_pow_u64', line('alg_pow_u64', f, aa, e), oracle=o_val(powmod_naive(aa, e, f), 'a^%d' % e), tag='alg:pow'))
     for e in [-1, -5, -(1 << 70)]:
         out.append(Case('alg_pow', line('alg_pow', f, [F(0), F(1)], e), nontrivial=False, tag='alg:pow:neg'))
     e = (1 << 66) + 5
-    out.append(Case('alg_pow', line('alg_pow', [-1, 0, 1], [F(0), F(1)], e), oracle=o_val([F(0), F(1)], 'x^odd mod x^2-1'), tag='alg:pow:big', always_oracle=True))
+    out.append(Case('alg_pow', line('alg_pow', [-1, 0, 1], [F(0), F(1)], e), oracle=o_val([F(0), F(1)], 'x^odd mod x^2-1'), tag='alg:pow:big'))
     return out
 
 def quotient_edges(rng):
@@ -319,12 +337,12 @@ def table_cases(rng, quick):
         n = len(f) - 1
         nt = n >= 2
         tag = 'tab:%s:deg%d' % (kind, n)
-        out.append(Case('ord_mult_table', line('ord_mult_table', O, f), oracle=o_table(f), nontrivial=nt, tag=tag, always_oracle=True))
+        out.append(Case('ord_mult_table', line('ord_mult_table', O, f), oracle=o_table(f), nontrivial=nt, tag=tag))
         reps = 2 if quick else 4
         for r in range(reps):
             bits = 3 if r % 2 == 0 else 40
             a, b = coord_vec(rng, n, bits), coord_vec(rng, n, bits)
-            out.append(Case('omt_mul', line('omt_mul', O, f, a, b), oracle=o_tmul(f, a, b), nontrivial=nt, tag=tag, always_oracle=True))
+            out.append(Case('omt_mul', line('omt_mul', O, f, a, b), oracle=o_tmul(f, a, b), nontrivial=nt, tag=tag))
             out.append(Case('omt_trace', line('omt_trace', O, f, a), oracle=o_trace(f, a), nontrivial=nt, tag=tag, always_oracle=True))
             out.append(Case('omt_norm', line('omt_norm', O, f, a), oracle=o_norm(f, a), nontrivial=nt, tag=tag, always_oracle=True))
             out.append(Case('omt_inv', line('omt_inv', O, f, a), oracle=o_inv(f, a), nontrivial=nt, tag=tag, always_oracle=True))
@@ -338,8 +356,7 @@ def table_cases(rng, quick):
         out.append(Case('ord_to_z_basis_int', line('ord_to_z_basis_int', O, f, rand_elem(rng, n, 6, 0)), nontrivial=nt, tag='tab:zbasis'))
         if kind == 'equation':
             ei = [F(x) for x in coord_vec(rng, n, 20)]
-            out.append(Case('ord_to_z_basis_int', line('ord_to_z_basis_int', O, f, ptrim(ei)), oracle=o_val_pair(ei), nontrivial=nt, tag='tab:zbasis',
-                            always_oracle=True))
+            out.append(Case('ord_to_z_basis_int', line('ord_to_z_basis_int', O, f, ptrim(ei)), oracle=o_val_pair(ei), nontrivial=nt, tag='tab:zbasis'))
     return out
 
 def o_val_pair(ei):
@@ -374,10 +391,10 @@ def raw_cases(rng, quick):
         n = len(T)
         for _ in range(3):
             a = [rng.randint(-9, 9) for _ in range(n)]; b = [rng.randint(-9, 9) for _ in range(n)]
-            out.append(Case('mt_mul', line('mt_mul', T, a, b, Id('checked')), oracle=o_raw_mul(T, a, b), nontrivial=n >= 2, tag='raw:mul', always_oracle=True))
+            out.append(Case('mt_mul', line('mt_mul', T, a, b, Id('checked')), oracle=o_raw_mul(T, a, b), nontrivial=n >= 2, tag='raw:mul'))
             out.append(Case('mt_mul', line('mt_mul', T, a, b, Id('wrapping')), oracle=o_raw_mul(T, a, b), nontrivial=n >= 2, tag='raw:mul:release',
-                            profile='release', always_oracle=True))
-            out.append(Case('mt_trace', line('mt_trace', T, a), oracle=o_raw_trace(T, a), nontrivial=n >= 2, tag='raw:trace', always_oracle=True))
+                            profile='release'))
+            out.append(Case('mt_trace', line('mt_trace', T, a), oracle=o_raw_trace(T, a), nontrivial=n >= 2, tag='raw:trace'))
             out.append(Case('mt_norm', line('mt_norm', T, a), oracle=o_raw_norm(T, a), nontrivial=n >= 2, tag='raw:norm', always_oracle=True))
             out.append(Case('mt_inv', line('mt_inv', T, a), oracle=o_raw_inv(T, a), nontrivial=n >= 2, tag='raw:inv', always_oracle=True))
         out.append(Case('mt_inv_diff', line('mt_inv_diff', T), nontrivial=False, tag='raw:inv_diff'))
